@@ -74,6 +74,10 @@ pub mod stdspec {
         ensures r == (a@ == b@)
     { admit(); }
 
+    // `==` on core::cmp::Ordering (derived PartialEq: structural)
+    pub assume_specification [<core::cmp::Ordering as PartialEq>::eq] (a: &core::cmp::Ordering, b: &core::cmp::Ordering) -> (r: bool)
+        ensures r == (*a == *b);
+
     // Rust language invariant: no slice is longer than isize::MAX octets
     pub broadcast proof fn axiom_slice_len_bound(s: &[u8])
         ensures #[trigger] s@.len() <= isize::MAX
